@@ -72,6 +72,45 @@ def equal(ev: SerEval, run: Run, a: Any, b: Any, path: str, out: list[str]) -> N
         out.append(f"{path}: {a!r} decodes again as {b!r}")
 
 
+def text_codecs(chk: Check, repo: Repo) -> None:
+    """Text types: the only permitted change of a decoded text on its way back to octets is the codec's own
+    errors='replace' (the documented '?'): the text handed to `.encode` is `str(value)` itself (single-assignment
+    chain), encoded with the class codec and errors='replace', padded with NUL octets only; the decoder drops only NUL
+    octets and decodes with the same codec and errors='replace'."""
+    base = repo.cls("xknx.dpt.dpt_16", "DPTString")
+    tk, fk = base.methods.get("to_knx"), base.methods.get("from_knx")
+    if tk is None or fk is None:
+        raise AnalysisError("DPTString codec not found")
+    chk.unit(tk); chk.unit(fk)
+    over = [c.name for c in repo.subclasses(base, strict=True) if "to_knx" in c.methods or "from_knx" in c.methods]
+    chk.ob("text-codec-shared", tk.site(), not over, f"subclasses overriding the text codec: {over}", key="text|overrides")
+
+    def origin(name: str, fn) -> str:
+        seen = set()
+        while True:
+            defs = [n for n in walk_local(fn.node) if isinstance(n, ast.Assign) and len(n.targets) == 1 and isinstance(n.targets[0], ast.Name) and n.targets[0].id == name]
+            others = [n for n in walk_local(fn.node) if isinstance(n, (ast.AugAssign, ast.For, ast.NamedExpr)) and any(isinstance(x, ast.Name) and x.id == name and isinstance(x.ctx, ast.Store) for x in ast.walk(n))]
+            if len(defs) != 1 or others or name in seen:
+                return f"?{name} ({len(defs)} assignments)"
+            seen.add(name)
+            v = defs[0].value
+            if isinstance(v, ast.Name):
+                name = v.id
+                continue
+            return ast.unparse(v)
+    enc = [c for c in calls(tk.node) if isinstance(c.func, ast.Attribute) and c.func.attr == "encode"]
+    param = tk.node.args.args[1].arg
+    ok = len(enc) == 1 and isinstance(enc[0].func.value, ast.Name) and origin(enc[0].func.value.id, tk) == f"str({param})" and ast.unparse(enc[0].args[0]) == "cls._encoding" and any(k.arg == "errors" and ast.unparse(k.value) == "'replace'" for k in enc[0].keywords)
+    chk.ob("text-reencoded-unchanged-but-for-codec-replacement", tk.site(), ok, f"DPTString.to_knx encodes `{origin(enc[0].func.value.id, tk) if enc and isinstance(enc[0].func.value, ast.Name) else '?'}` with ({', '.join(ast.unparse(a) for a in enc[0].args) if enc else '?'}, errors=replace): the caller's text, untouched before the codec", key="text|encode")
+    pads = [n for n in walk_local(tk.node) if isinstance(n, ast.Assign) and isinstance(n.value, ast.Call) and call_name(n.value) == "bytes" and len(n.value.args) == 1 and not isinstance(n.value.args[0], (ast.List, ast.Tuple, ast.Constant))]
+    rets = [n for n in walk_local(tk.node) if isinstance(n, ast.Return)]
+    ok = len(pads) == 1 and len(rets) == 1 and isinstance(rets[0].value, ast.Call) and call_name(rets[0].value) == "DPTArray" and isinstance(rets[0].value.args[0], ast.BinOp) and isinstance(rets[0].value.args[0].op, ast.Add) and origin(ast.unparse(rets[0].value.args[0].left), tk).endswith("errors='replace')") and ast.unparse(rets[0].value.args[0].right) == pads[0].targets[0].id
+    chk.ob("text-reencoded-unchanged-but-for-codec-replacement", tk.site(), ok, "the payload is the encoded text followed by NUL padding (bytes(n)) and nothing else", key="text|padding")
+    dec = [c for c in calls(fk.node) if isinstance(c.func, ast.Attribute) and c.func.attr == "decode"]
+    ok = len(dec) == 1 and ast.unparse(dec[0].args[0]) == "cls._encoding" and any(k.arg == "errors" and ast.unparse(k.value) == "'replace'" for k in dec[0].keywords) and isinstance(dec[0].func.value, ast.Call) and call_name(dec[0].func.value) == "bytes" and isinstance(dec[0].func.value.args[0], ast.GeneratorExp) and [ast.unparse(i) for i in dec[0].func.value.args[0].generators[0].ifs] in (["byte != 0"], ["byte"]) and ast.unparse(dec[0].func.value.args[0].elt) == ast.unparse(dec[0].func.value.args[0].generators[0].target)
+    chk.ob("text-decoded-dropping-only-nul", fk.site(), ok, "DPTString.from_knx decodes the non-NUL octets with the class codec and errors='replace'", key="text|decode")
+
+
 def codecs(repo: Repo):
     base = repo.cls("xknx.dpt.dpt", "DPTBase")
     seen: dict[tuple, list] = {}
@@ -162,5 +201,6 @@ def run(chk: Check, repo: Repo) -> None:
             for call in calls(m.node):
                 if call_name(call) == "int" and call.args and any(isinstance(x, ast.BinOp) and isinstance(x.op, ast.Div) for x in ast.walk(call.args[0])):
                     chk.ob("scaled-value-is-rounded-not-truncated", m.site(call), False, f"{c.name}.{mname}: `{ast.unparse(call)}` truncates toward zero; a decoded value such as 0.29 (= 29 x 0.01) re-encodes as 28", key=f"trunc|{c.name}.{mname}")
+    text_codecs(chk, repo)
     chk.rule("E2 bit-provenance evaluation decode -> encode -> decode per distinct codec, every path; structural equality of the two decoded values; truncation lint")
     chk.assume("float-valued codecs are not decided here (listed in evidence); DPTArray / DPTBinary payloads are octet tuples / 6-bit values (C11)")
